@@ -737,12 +737,14 @@ let conn_case (line : string) : string =
   match split_on " ;; " line with
   | [] -> failwith "empty"
   | head :: steps ->
-    (match words head with
-     | ["conn"; cfgf; peerf; connect] ->
+    (match (match words head with [a; b; c; d] -> [a; b; c; d; "E."] | w -> w) with
+     | ["conn"; cfgf; peerf; connect; early] ->
         let negotiated = n_of_int ((int_of_string cfgf) land (int_of_string peerf)) in
         let connected = connect = "1" in
         let cfg = mk_cfg owned_arms [] [] in
-        let cs = ref [] and closed = ref false and st = ref rstate_init in
+        (* bytes the peer sent in one write with its handshake ack are the beginning of the stream *)
+        let early_bytes = bytes_of_hex (String.sub early 1 (String.length early - 1)) in
+        let cs = ref (if early_bytes = [] then [] else [Data early_bytes]) and closed = ref false and st = ref rstate_init in
         let out = ref [] and wrote = ref [] and hdr_mode = not (uses_pass_through negotiated) in
         List.iter (fun step ->
           let t = { l = words step } in
